@@ -26,6 +26,7 @@ TYPESETS = [
     [((1, 0), 1), ((1, 1), 1)],
     [((0, 0), 2), ((1, 0), 2)],
     [((0, 1), 1), ((1, 0), 1), ((0, 0), 1)],
+    [((2, 0), 1), ((0, 0), 1)],     # a tensor block of order 2: its norm runs over BOTH tensor indices (Frobenius)
 ]
 
 
